@@ -291,9 +291,17 @@ def scanSegs (fs : FS) : List DSeg :=
     | some l => if e.2.length > headerSize then some { left := l, data := e.2.drop headerSize } else none
     | none => none)
 
-/-- the snapshot found by the walk: the last committed `.rdb` in lexical order -/
+/-- a committed snapshot name whose file holds exactly the announced number of bytes
+    (`initDataSet`, session 5: `info.Size() != rf.size` → logged, not indexed) -/
+def sizedRdb (fs : FS) (n : FName) : Option (Nat × Nat) :=
+  match parseRdbName n with
+  | some (l, s) => if ((fs.get n).getD []).length = s then some (l, s) else none
+  | none => none
+
+/-- the snapshot found by the walk: the last committed `.rdb` in lexical order whose file has
+    the size its name announces -/
 def scanRdb (fs : FS) : Option (Nat × Nat) :=
-  ((sortNames (fs.map (·.1))).filterMap parseRdbName).getLast?
+  ((sortNames (fs.map (·.1))).filterMap (sizedRdb fs)).getLast?
 
 def reopen (fs : FS) : Reopened :=
   let segs := sortSegs (scanSegs fs)
